@@ -55,6 +55,7 @@ class Ctx:
         self.cur_rule = None
         self.config_suffix = ""
         self._und_seen = set()
+        self.subsets = []  # parts of a finite space this run did not enumerate completely (quick-tier version subsets, lattices)
 
     # ----------------------------------------------------------------- facts
     def facts(self, config):
@@ -112,6 +113,12 @@ class Ctx:
         else:
             self.fail(rid, key, where, fn, instance, reason, expected, found)
         return cond
+
+    def subset(self, rid, what):
+        """this run covers only part of a finite space for rule rid (stated, so that `exhaustive` is honest)"""
+        s = "%s: %s" % (rid, what)
+        if s not in self.subsets:
+            self.subsets.append(s)
 
     def abstain(self, rid, reason, where=None):
         r = self.rules[rid]
@@ -203,7 +210,8 @@ class Ctx:
                 "checker_cmd": checker_cmd,
                 "trusted_base": trusted_base,
                 "explanation": explanation,
-                "exhaustive": True,
+                "exhaustive": not self.subsets,
+                "not_enumerated_completely": self.subsets,
                 "rules": {rid: {k: r[k] for k in ("title", "obligations", "discharged", "undecided")}
                           for rid, r in sorted(self.rules.items())},
                 "configurations": self.configs,
